@@ -277,6 +277,23 @@ def c08(tier):
                     continue
                 rs = [c.shape for c in tr.factors]
                 chk(tag, rs[0][0] == rs[-1][2] and all(a[2] == b[0] for a, b in zip(rs, rs[1:])) and [c[1] for c in rs] == list(shape), f"core shapes {rs}")
+    # every class wrapper, constructed with nothing but its rank (default options), returns the decomposition it stores
+    import contextlib
+    import io
+    from tensorly.decomposition._tucker import Tucker_NN, Tucker_NN_HALS
+    from tensorly.decomposition._tr_als import TensorRingALSSampled
+    Xc, Xm = rng.random((4, 5, 3)) + 0.1, rng.random((2, 3, 2, 3)) + 0.1
+    wrappers = [(D.CP, dict(rank=2), Xc), (D.RandomizedCP, dict(rank=2, n_samples=20), Xc), (D.CPPower, dict(rank=2), Xc), (D.CP_NN, dict(rank=2), Xc), (D.CP_NN_HALS, dict(rank=2), Xc),
+                (D.Tucker, dict(rank=[2, 2, 2]), Xc), (Tucker_NN, dict(rank=[2, 2, 2]), Xc), (Tucker_NN_HALS, dict(rank=[2, 2, 2]), Xc), (D.Parafac2, dict(rank=2), Xc),
+                (D.ConstrainedCP, dict(rank=2, non_negative=True), Xc), (D.TensorTrain, dict(rank=[1, 2, 2, 1]), Xc), (D.TensorTrainMatrix, dict(rank=[1, 2, 1]), Xm),
+                (D.TensorRing, dict(rank=[2, 2, 2, 2]), Xc), (D.TensorRingALS, dict(rank=[2, 2, 2, 2]), Xc), (TensorRingALSSampled, dict(rank=[2, 2, 2, 2], n_samples=10), Xc)]
+    for K_, kw, data in wrappers:
+        tag = f"{K_.__name__}({', '.join(f'{a}={b}' for a, b in kw.items())}).fit_transform with default options"
+        with contextlib.redirect_stdout(io.StringIO()):
+            est = K_(**kw)
+            out = _guard(tag, lambda: est.fit_transform(data), fails)
+        if out is not None:
+            chk(tag, out is getattr(est, "decomposition_", None), "the returned object is not the stored decomposition_")
     for I_, J, K in ((3, 4, 5), (2, 3, 4)):
         slices = [rng.standard_normal((J + (i % 2), K)) for i in range(I_)]
         for rank in (1, 2, 3):
